@@ -194,6 +194,9 @@ def same(ctx, rep):
                     continue
                 if "digest" in x or "KeyIdMethod::derive" in x or "is PreSpecified" in x or "issuer.key_identifier_method" in x:
                     continue
+                if "INTEGER(self.serial_number" in x:
+                    continue        # the explicit serial, written under `IF some(..)` in one tree and unconditionally (the
+                                    # crypto-less build has failed otherwise) in the other
                 ok_ = False
             return ok_
         ok = _allowed(d)
